@@ -562,15 +562,11 @@ func checkTwinLookups(c *Ctx, r *goan.Rel) {
 			if !ok {
 				return true
 			}
-			kid, ok := rs.Key.(*ast.Ident)
-			if !ok || kid.Name == "_" {
+			collX, kobj := keyRange(info, fd.Body, rs)
+			if collX == nil || kobj == nil {
 				return true
 			}
-			if _, isMap := info.TypeOf(rs.X).Underlying().(*types.Map); !isMap {
-				return true
-			}
-			kobj := info.Defs[kid]
-			sRange := r.SideOf(rs.X)
+			sRange := r.SideOf(collX)
 			if sRange != goan.S1 && sRange != goan.S2 {
 				return true
 			}
@@ -591,10 +587,10 @@ func checkTwinLookups(c *Ctx, r *goan.Rel) {
 				if sMap == sRange || (sMap != goan.S1 && sMap != goan.S2) {
 					return true
 				}
-				a := r.TwinKeyResolved(rs.X, fd.Body)
+				a := r.TwinKeyResolved(collX, fd.Body)
 				b := r.TwinKeyResolved(ix.X, fd.Body)
-				c.Check(a == b, rule, fmt.Sprintf("diff.%s › range %s ∌ %s", load.FuncName(fd), goan.ExprString(rs.X), goan.ExprString(ix.X)), c.posOf(pk, as.Pos()),
-					"twin collections", fmt.Sprintf("the loop ranges %s but looks its keys up in %s, which is not derived the same way from the other spec: items present on both sides can be reported missing (a spec would differ from itself)", goan.ExprString(rs.X), goan.ExprString(ix.X)))
+				c.Check(a == b, rule, fmt.Sprintf("diff.%s › range %s ∌ %s", load.FuncName(fd), goan.ExprString(collX), goan.ExprString(ix.X)), c.posOf(pk, as.Pos()),
+					"twin collections", fmt.Sprintf("the loop ranges %s but looks its keys up in %s, which is not derived the same way from the other spec: items present on both sides can be reported missing (a spec would differ from itself)", goan.ExprString(collX), goan.ExprString(ix.X)))
 				return true
 			})
 			return true
